@@ -48,6 +48,26 @@ def _alarm(signum, frame):
 
 
 def real_tokens(data, B, limit=None):
+    """-> (tokens, error); a "Hang" verdict is only returned when it reproduces with the garbage collector switched off:
+    the watchdog counts CPU time of the whole process, and a full collection over the millions of objects a thorough
+    run keeps alive can by itself take longer than the watchdog allows (seen twice in 7.5 million calls)."""
+    r = _real_tokens(data, B, limit)
+    if r[1] != "Hang":
+        return r
+    import gc
+    global HANGS
+    was = gc.isenabled()
+    gc.disable()
+    try:
+        r2 = _real_tokens(data, B, limit)
+    finally:
+        if was:
+            gc.enable()
+    HANGS -= 1              # both attempts counted themselves: one hang per input at most
+    return r2
+
+
+def _real_tokens(data, B, limit=None):
     """-> (tokens, error)  error is None when the tokenizer ended with PSEOF; "NoProgress" when it yields tokens
     without end, "Hang" when a single nexttoken() call does not return within the watchdog time."""
     import signal
